@@ -69,6 +69,12 @@ def gen_cases(rng, tier):
         if rng.random() < 0.35 and spec.get("inject") is None:
             spec["inject"] = rng.randrange(1, 200)
         yield spec
+    # the real LocalBackend with real worker processes that handle SIGTERM (monitor only): once the backend has stopped or paused
+    # a trial, or stopped everything at the end, no worker process is left alive
+    for _ in range(4 if tier == "quick" else 40):
+        yield {"local_poll": True, "ctor": {"delete_checkpoints": rng.random() < 0.3, "delayed_stop": False, "local": True},
+               "seed": rng.randrange(10 ** 9), "steps": rng.choice([30, 50]), "n_workers": rng.randint(1, 4),
+               "p": {"p_continue": 0.6, "p_pause": 0.28, "p_window": 0.3, "direct_cmd": 0.15, "bad": 0.0, "stop_all": 1.0, "p_mid": 0.0}}
 
 
 def corpus():
@@ -79,6 +85,15 @@ def corpus():
 
 
 def run_impl(spec):
+    if spec.get("local_poll"):
+        from streams import poll
+        t = poll.run_scenario(spec)
+        mon = []
+        if t.get("survivors"):
+            mon.append({"signature": "c12:job-alive-after-stop", "what": f"real LocalBackend: the worker processes of trials {t['survivors']} "
+                        "were still alive after the backend had stopped / paused them", "detail": None})
+        return {"lines": [], "monitor": mon, "meta": {"hist": {"local-poll:" + k: v for k, v in t["hist"].items() if k.startswith("op:")},
+                                                        "kinds": ["be.stop", "be.pause", "cb.result", "be.fetch"]}}
     t = loop.run_loop(spec)
     try:
         lines = loop.to_lines(t)
